@@ -36,6 +36,8 @@ func main() {
 		os.Exit(cmdCheck(os.Args[2:]))
 	case "func":
 		os.Exit(cmdFunc(os.Args[2:]))
+	case "names":
+		os.Exit(cmdNames(os.Args[2:]))
 	case "list":
 		os.Exit(cmdList(os.Args[2:]))
 	case "replay":
@@ -73,6 +75,32 @@ func cmdList(args []string) int {
 		_, found := v.funcs[k]
 		fmt.Printf("%-70s props=%v inline=%v trusted=%v lib=%v found=%v\n", k, c.Props, c.Inline, c.Trusted, c.Lib, found)
 	}
+	return 0
+}
+
+// cmdNames prints, for every function under contract, its local variables (name, type) in declaration order.
+// The output is committed as lib/names.json and lets a contract survive the renaming of a local variable.
+func cmdNames(args []string) int {
+	fs := flag.NewFlagSet("names", flag.ExitOnError)
+	repo := fs.String("repo", "/repo", "repository")
+	fs.Parse(args)
+	v, err := loadProgram(*repo)
+	if err != nil {
+		fmt.Fprintln(os.Stderr, err)
+		return 2
+	}
+	out := map[string][][2]string{}
+	for k, c := range v.contracts.Funcs {
+		fn := v.funcs[k]
+		if fn == nil || c.Trusted || c.Lib || len(fn.Blocks) == 0 {
+			continue
+		}
+		fr := v.newFrame(fn, c, true)
+		fr.collectDebug()
+		out[k] = fr.localOrder()
+	}
+	data, _ := json.MarshalIndent(out, "", " ")
+	fmt.Println(string(data))
 	return 0
 }
 
